@@ -124,7 +124,8 @@ def run(ctx, prop=PROP, judge=None, what=WHAT):
 
 UY = {"SCHED_UYIELD": "1"}     # library-lock releases are preemption points too (code right after cbuf_read interleaves)
 NAMESETS = [[b"n1.example.co", b"n2.example.com"], [b"a.Dom", b"b.dom"], [b"x.lab", b"y.lab.example.com", b"z.lab"], [b"p.d", b"q.d", b"r.dd"],
-            [b"u.site", b"v.site", b"w.site"], [b"k1.a.b", b"k2.a.b", b"k3.b"],
+            [b"u.site", b"v.site", b"w.site"], [b"k1.a.b", b"k2.a.b", b"k3.b"], [b"1a.foo", b"b.bar"], [b"b.bar", b"c.bar", b"10.0.0.1"],
+            [b"9.bar", b"b.bar"],
             [b"n1", b"n2", b"n3"], [b"foo", b"foo1", b"foo-ib"], [b"a.dom", b"b.dom"], [b"a.x.org", b"b.y.org", b"c"], [b"10.0.0.1", b"10.0.0.2"],
             [b"h1.d", b"h2.d", b"h3.d", b"h4.d"], [b"n1", b"n10", b"n100"], [b"a", b"ab", b"abc", b"abcd"]]
 
